@@ -1,12 +1,17 @@
 import Qryn.Proofs.Router
+import Qryn.Proofs.AuthConfig
+import Qryn.Http.Exposure
 import Qryn.Gen.Routes
+import Qryn.Gen.AuthConfig
+import Qryn.Gen.Exposure
 /-! # C20 — with basic auth configured no route is reachable without the credentials
 
 Property theorems only. Models: `Qryn.Http.authDecision` (= `BasicAuthMiddleware`, after the A34 fix),
 `Qryn.B64` (Go's `base64.StdEncoding` decoder incl. its partial result on error), `Qryn.Http.Router`
 (gorilla/mux matching + `Use` middlewares, gzip / CORS / logging wrappers at the level of
 `http.ResponseWriter` calls), `Gen.Routes` (how `main.go` assembles the router, and the route table,
-regenerated from source on every run). -/
+regenerated from source on every run), `Qryn.Http.AuthConfig` interpreting `Gen.AuthConfig` (the statements of
+`portEnv` that decide the credentials and the guard in front of `Use(BasicAuthMiddleware…)`, regenerated as a plan). -/
 namespace Qryn.C20
 open Qryn Qryn.Http
 
@@ -258,6 +263,298 @@ theorem production_router_guarded (login pass : Bytes) (rest : List Middleware) 
   have := no_handler_without_creds login pass rest (tableOf routes hs) clean req h
   exact ⟨this.1, (this.2 hc ⟨_, hmem, hacc⟩).2.1⟩
 
+
+/-! ## the configuration path: which credentials are in force, and is the middleware installed at all
+
+`Gen.AuthConfig.plan` is what `main.go` `portEnv` does to `cfg.Setting.AUTH_SETTINGS.BASIC` (regenerated);
+`Gen.AuthConfig.install` is `main()`'s `if guard { app.Use(BasicAuthMiddleware(login, pass)) }`. The theorems
+below are about the INTERPRETATION of that regenerated plan: for every environment (every variable absent, or
+set to any byte string incl. the empty one), every pair of values left by the configuration file. -/
+
+section config
+open Qryn.Http.AuthConfig
+
+/-- the variables documented to carry the login, lowest precedence first (`CLOKI_*` wins over `QRYN_*`) -/
+def loginVars : List String := ["QRYN_LOGIN", "CLOKI_LOGIN"]
+/-- the variables documented to carry the password, lowest precedence first -/
+def passVars : List String := ["QRYN_PASSWORD", "CLOKI_PASSWORD"]
+def varsOf : Field → List String
+  | .user => loginVars
+  | .pass => passVars
+
+/-- the credentials after `cfg.ReadConfig(); portEnv(cfg)`: `file` = what the configuration file (ReadConfig) gave -/
+def effective (env : Env) (file : Creds) : Creds := runPlan env Gen.AuthConfig.plan file
+
+/-- `some (login, pass)` ⇔ `main()` installs `BasicAuthMiddleware(login, pass)` as the first middleware -/
+def installedCreds (env : Env) (file : Creds) : Option (Bytes × Bytes) :=
+  installed Gen.AuthConfig.plan Gen.AuthConfig.install env file
+
+/-- the operator supplied a non-empty value for the field through SOME source: configuration file or one of its
+    environment variables -/
+def supplied (f : Field) (env : Env) (file : Creds) : Prop :=
+  file.get f ≠ [] ∨ ∃ v ∈ varsOf f, getenv env v ≠ []
+
+open Qryn.Gen.AuthConfig in
+/-- **config_path_ok** (decide over `Gen.AuthConfig`). `portEnv`'s credential statements are exactly four
+    independent overrides `if os.Getenv(K) != "" { field = os.Getenv(K) }` — `QRYN_LOGIN` then `CLOKI_LOGIN` on
+    Username, `QRYN_PASSWORD` then `CLOKI_PASSWORD` on Password; before them `portEnv` only calls `portCHEnv` (which
+    does not mention the credentials) and returns its error; `main()` runs `clconfig.New`, `ReadConfig`, `portEnv`
+    (panic on error), creates the router and installs the middleware under exactly the guard "both fields non-empty"
+    with the two fields as arguments — the same `if` statement `Gen.Routes.authGuard` was read from; the reader-owned
+    server path uses the same guard and arguments over the same configuration object; in the whole module (non-test
+    code) only `portEnv` writes `AUTH_SETTINGS`, only `main` and `reader.applyMiddlewares` read it, nothing replaces
+    `.Setting`, `config.Cloki` is only ever assigned the `Init` parameter, and nothing changes the environment. -/
+theorem config_path_ok :
+    allOverrides plan = true ∧ sources plan .user = loginVars ∧ sources plan .pass = passVars ∧
+    install = stdInstall ∧ readerInstall = install ∧ installGuardText = Qryn.Gen.Routes.authGuard ∧
+    portEnvPrefix = ["call portCHEnv(cfg)", "if err != nil { return err }"] ∧
+    mainSequence = ["clconfig.New", "ReadConfig", "portEnv", "panic on error", "mux.NewRouter", "guarded Use(BasicAuthMiddleware)"] ∧
+    credentialWriters = ["main.go:portEnv"] ∧
+    credentialReaders = ["main.go:main", "reader/main.go:applyMiddlewares"] ∧
+    settingWrites = [] ∧ setenvSites = [] ∧
+    clokiAssignments = ["reader/main.go:Init: cnf", "writer/main_dev.go:Init: cfg"] := by
+  decide +kernel
+
+/-- **effective_last_nonempty** (b). After `ReadConfig` + `portEnv` each credential is the LAST NON-EMPTY value in
+    the precedence order *configuration file, `QRYN_…`, `CLOKI_…`*; an empty-but-set variable counts as absent. -/
+theorem effective_last_nonempty (env : Env) (file : Creds) :
+    effective env file =
+      ⟨lastNonEmpty file.user (loginVars.map (getenv env)), lastNonEmpty file.pass (passVars.map (getenv env))⟩ := by
+  obtain ⟨ho, hu, hp, _⟩ := config_path_ok
+  apply Creds.ext'
+  · rw [effective, runPlan_get env .user _ file ho, hu]; rfl
+  · rw [effective, runPlan_get env .pass _ file ho, hp]; rfl
+
+/-- the same, spelled out: `CLOKI_LOGIN` if non-empty, else `QRYN_LOGIN` if non-empty, else the file's value -/
+theorem effective_explicit (env : Env) (file : Creds) :
+    (effective env file).user =
+      (if getenv env "CLOKI_LOGIN" ≠ [] then getenv env "CLOKI_LOGIN"
+       else if getenv env "QRYN_LOGIN" ≠ [] then getenv env "QRYN_LOGIN" else file.user) ∧
+    (effective env file).pass =
+      (if getenv env "CLOKI_PASSWORD" ≠ [] then getenv env "CLOKI_PASSWORD"
+       else if getenv env "QRYN_PASSWORD" ≠ [] then getenv env "QRYN_PASSWORD" else file.pass) := by
+  rw [effective_last_nonempty]
+  simp only [loginVars, passVars, List.map_cons, List.map_nil, lastNonEmpty, List.foldl_cons, List.foldl_nil]
+  constructor <;> split <;> simp_all
+
+/-- **override_independent** (a). Setting, changing or removing a variable leaves every credential it is not an
+    override of untouched: a login variable never changes the password, a password variable never the login, any
+    other variable neither — whatever the other variables and the file hold. -/
+theorem override_independent (env : Env) (file : Creds) (v : String) (x : Option Bytes) :
+    (v ∉ loginVars → (effective (env.update v x) file).user = (effective env file).user) ∧
+    (v ∉ passVars → (effective (env.update v x) file).pass = (effective env file).pass) := by
+  simp only [effective_last_nonempty, loginVars, passVars, List.map_cons, List.map_nil, getenv_update,
+    List.mem_cons, List.not_mem_nil, or_false, not_or]
+  constructor
+  · rintro ⟨h1, h2⟩
+    rw [if_neg (Ne.symm h1), if_neg (Ne.symm h2)]
+  · rintro ⟨h1, h2⟩
+    rw [if_neg (Ne.symm h1), if_neg (Ne.symm h2)]
+
+/-- a variable changes only its own field: the override variables of the two fields are disjoint -/
+theorem override_changes_only_own_field (env : Env) (file : Creds) (f g : Field) (hfg : g ≠ f)
+    (v : String) (hv : v ∈ varsOf f) (x : Option Bytes) :
+    (effective (env.update v x) file).get g = (effective env file).get g := by
+  have hi := override_independent env file v x
+  cases f <;> cases g <;> simp only [ne_eq, not_true_eq_false, reduceCtorEq, not_false_eq_true] at hfg
+  · apply hi.2
+    simp only [varsOf, loginVars, List.mem_cons, List.not_mem_nil, or_false] at hv
+    rcases hv with rfl | rfl <;> decide
+  · apply hi.1
+    simp only [varsOf, passVars, List.mem_cons, List.not_mem_nil, or_false] at hv
+    rcases hv with rfl | rfl <;> decide
+
+/-- an empty-but-set variable is the same as an unset one -/
+theorem empty_is_unset (env : Env) (file : Creds) (v : String) :
+    effective (env.update v (some [])) file = effective (env.update v none) file := by
+  simp only [effective_last_nonempty, loginVars, passVars, List.map_cons, List.map_nil, getenv_update_empty]
+
+/-- the effective value of a field is non-empty iff some source supplied a non-empty one -/
+theorem effective_nonempty_iff (f : Field) (env : Env) (file : Creds) :
+    (effective env file).get f ≠ [] ↔ supplied f env file := by
+  rw [effective_last_nonempty]
+  cases f <;> simp only [Creds.get, lastNonEmpty_ne_nil, supplied, varsOf, List.mem_map] <;>
+    exact or_congr Iff.rfl ⟨fun ⟨_, ⟨v, hv, rfl⟩, h⟩ => ⟨v, hv, h⟩, fun ⟨v, hv, h⟩ => ⟨_, ⟨v, hv, rfl⟩, h⟩⟩
+
+/-- the effective value of a field is the file's value or the value of one of its variables — never anything else -/
+theorem effective_from_a_source (f : Field) (env : Env) (file : Creds) :
+    (effective env file).get f = file.get f ∨ ∃ v ∈ varsOf f, (effective env file).get f = getenv env v := by
+  rw [effective_last_nonempty]
+  cases f <;> simp only [Creds.get, varsOf]
+  · rcases lastNonEmpty_mem (loginVars.map (getenv env)) file.user with h | h
+    · exact .inl h
+    · obtain ⟨v, hv, he⟩ := List.mem_map.mp h; exact .inr ⟨v, hv, he.symm⟩
+  · rcases lastNonEmpty_mem (passVars.map (getenv env)) file.pass with h | h
+    · exact .inl h
+    · obtain ⟨v, hv, he⟩ := List.mem_map.mp h; exact .inr ⟨v, hv, he.symm⟩
+
+/-- what `main()`'s guard does with the effective credentials -/
+theorem installed_exact (env : Env) (file : Creds) :
+    installedCreds env file =
+      if (effective env file).user ≠ [] ∧ (effective env file).pass ≠ [] then
+        some ((effective env file).user, (effective env file).pass) else none := by
+  rw [installedCreds, installed, config_path_ok.2.2.2.1, stdInstall_eval]; rfl
+
+/-- **both_supplied_installed** (c). If the operator supplied a non-empty login through ANY source and a non-empty
+    password through ANY source (file + variable, `QRYN_*` + `CLOKI_*`, …), `main()` installs the middleware, with
+    exactly the effective credentials (both non-empty). -/
+theorem both_supplied_installed (env : Env) (file : Creds)
+    (hu : supplied .user env file) (hp : supplied .pass env file) :
+    installedCreds env file = some ((effective env file).user, (effective env file).pass) ∧
+    (effective env file).user ≠ [] ∧ (effective env file).pass ≠ [] := by
+  have h1 := (effective_nonempty_iff .user env file).mpr hu
+  have h2 := (effective_nonempty_iff .pass env file).mpr hp
+  simp only [Creds.get] at h1 h2
+  exact ⟨by rw [installed_exact, if_pos ⟨h1, h2⟩], h1, h2⟩
+
+/-- **not_installed_iff** (d). The middleware is NOT installed exactly when the login or the password was supplied
+    by no source at all. -/
+theorem not_installed_iff (env : Env) (file : Creds) :
+    installedCreds env file = none ↔ ¬ supplied .user env file ∨ ¬ supplied .pass env file := by
+  rw [installed_exact, ← effective_nonempty_iff, ← effective_nonempty_iff]
+  simp only [Creds.get]
+  by_cases h1 : (effective env file).user = [] <;> by_cases h2 : (effective env file).pass = [] <;> simp [h1, h2]
+
+/-- the reader-owned server path (`reader.Init(cfg, nil)`) decides exactly like `main()` -/
+theorem reader_own_path_same (env : Env) (file : Creds) :
+    installed Gen.AuthConfig.plan Gen.AuthConfig.readerInstall env file = installedCreds env file := by
+  rw [installedCreds, config_path_ok.2.2.2.2.1]
+
+/-- **configured_end_to_end.** For EVERY configuration in which both parts were supplied by some source, every
+    route table, every list of further middlewares, every request: if anything at all ran (a handler, a back-end
+    call), the request carried `Basic` + a base64 string that decodes without error to exactly
+    `effective login : effective password`; and on a registered route + method a request that does not is answered
+    401/400 by the auth middleware. -/
+theorem configured_end_to_end (env : Env) (file : Creds)
+    (hu : supplied .user env file) (hp : supplied .pass env file)
+    (rest : List Middleware) (routes : List Route) (clean : Bytes → Bool) (req : Req) :
+    let eff := effective env file
+    let R : Router := ⟨routes, mainChain (installedCreds env file) rest, clean⟩
+    ((serve R req).effects ≠ [] →
+      ∃ e, req.auth = some (basicWord ++ sp :: e) ∧ B64.decodeOk e = some (eff.user ++ colon :: eff.pass) ∧ colon ∉ eff.user) ∧
+    (authDecision eff.user eff.pass req.auth ≠ .pass → clean req.path = true → (∃ r ∈ routes, r.accepts req) →
+      (serve R req).effects = [] ∧ ((serve R req).status = 401 ∨ (serve R req).status = 400)) := by
+  intro eff R
+  have hi := (both_supplied_installed env file hu hp).1
+  have hR : R = ⟨routes, authMw eff.user eff.pass :: rest, clean⟩ := by simp only [R, hi, mainChain]; rfl
+  constructor
+  · intro hne
+    apply (auth_exact eff.user eff.pass req.auth).mp
+    apply Classical.byContradiction
+    intro hnp
+    exact hne (by rw [hR]; exact (no_handler_without_creds eff.user eff.pass rest routes clean req hnp).1)
+  · intro hnp hc hr
+    have := no_handler_without_creds eff.user eff.pass rest routes clean req hnp
+    rw [hR]
+    exact ⟨this.1, (this.2 hc hr).2.1⟩
+
+open Qryn.Gen.Routes in
+/-- **configured_production_guarded.** The same on the route table extracted from the source: for every
+    configuration with both parts supplied, every registered route × method, every request that does not carry the
+    effective credentials: 401/400 and no handler or back-end effect. -/
+theorem configured_production_guarded (env : Env) (file : Creds)
+    (hu : supplied .user env file) (hp : supplied .pass env file)
+    (rest : List Middleware) (hs : Nat → Handler) (clean : Bytes → Bool) (req : Req)
+    (h : authDecision (effective env file).user (effective env file).pass req.auth ≠ .pass) (hc : clean req.path = true)
+    (i : Nat) (spec : RouteSpec) (hi : routes[i]? = some spec)
+    (hpm : matchParts spec.pathPrefix spec.parts req.path = true) (hm : req.method ∈ spec.methods) :
+    let R : Router := ⟨tableOf routes hs, mainChain (installedCreds env file) rest, clean⟩
+    (serve R req).effects = [] ∧ ((serve R req).status = 401 ∨ (serve R req).status = 400) := by
+  intro R
+  have hR : R = ⟨tableOf routes hs, authMw (effective env file).user (effective env file).pass :: rest, clean⟩ := by
+    simp only [R, (both_supplied_installed env file hu hp).1, mainChain]
+  rw [hR]
+  exact production_router_guarded _ _ rest hs clean req h hc i spec hi hpm hm
+
+/-- with the effective credentials (standard encoding) a registered route's handler runs — the configuration path
+    does not lock the operator out (login without `:`) -/
+theorem configured_right_credentials_served (env : Env) (file : Creds)
+    (hu : supplied .user env file) (hp : supplied .pass env file) (hcol : colon ∉ (effective env file).user)
+    (wrappers : List Middleware) (hw : ∀ m ∈ wrappers, Transparent m)
+    (routes : List Route) (clean : Bytes → Bool) (req : Req)
+    (ha : req.auth = some (basicWord ++ sp :: B64.encode ((effective env file).user ++ colon :: (effective env file).pass)))
+    (hc : clean req.path = true) (hr : ∃ r ∈ routes, r.accepts req) :
+    let R : Router := ⟨routes, mainChain (installedCreds env file) wrappers, clean⟩
+    ∃ r' ∈ routes, r'.accepts req ∧ (serve R req).effects = (r'.handler req).effects := by
+  intro R
+  have hR : R = ⟨routes, authMw (effective env file).user (effective env file).pass :: wrappers, clean⟩ := by
+    simp only [R, (both_supplied_installed env file hu hp).1, mainChain]
+  have hpass : authDecision (effective env file).user (effective env file).pass req.auth = .pass := by
+    rw [ha]; exact right_credentials_pass _ _ hcol
+  obtain ⟨r', h1, h2, h3, _⟩ := creds_reach_handler _ _ wrappers hw routes clean req hpass hc hr
+  exact ⟨r', h1, h2, by rw [hR]; exact h3⟩
+
+/-- when nothing was configured (`not_installed_iff`) the router has no auth middleware: the chain is just the
+    other middlewares — the open configuration is exactly the unconfigured one -/
+theorem unconfigured_chain (env : Env) (file : Creds) (rest : List Middleware)
+    (h : ¬ supplied .user env file ∨ ¬ supplied .pass env file) :
+    mainChain (installedCreds env file) rest = rest := by
+  rw [(not_installed_iff env file).mpr h]; rfl
+
+/-! ### every listener, every mux, every MODE -/
+
+open Qryn.Gen.Exposure in
+/-- **exposure_ok** (decide over `Gen.Exposure`). In the whole module (non-test code) the only calls that open a
+    listener or serve on one — by NAME, whatever the package or receiver: `Listen*`, `Serve`, `ServeTLS`,
+    `ListenAndServe*`, `Accept*`, `New(Unstarted|TLS)Server` — are `net.Listen` + `http.Serve` in `main.httpStart` and in
+    the reader's own `httpStart`, and both serve their router parameter (`Gen.Routes`: the router that carries the
+    middlewares); the default mux only ever gets that same router under `/` and is never served (no serve call with a
+    `nil`/`DefaultServeMux` handler, no mention of `http.DefaultServeMux`), no import registers handlers on it by side
+    effect (`net/http/pprof`, `expvar`, `x/net/trace`), there is no `http.Server` literal; the only calls of `main()`
+    that receive the router outside an `if` are `RegisterCommonRoutes` and `httpStart`, and the conditional ones are
+    guarded by the MODE alone: `writer.Init` for all/writer/"", `reader.Init` and `view.Init` for all/reader/"". -/
+theorem exposure_ok :
+    listenCalls = ["main.go:httpStart:http.Serve", "main.go:httpStart:net.Listen",
+                   "reader/main.go:httpStart:http.Serve", "reader/main.go:httpStart:net.Listen"] ∧
+    listenCalls = Qryn.Gen.Routes.listenSites ∧
+    serveHandlers = ["main.go:httpStart:http.Serve(handler server)", "reader/main.go:httpStart:http.Serve(handler server)"] ∧
+    defaultMux = ["main.go:httpStart:http.Handle(/, server)", "reader/main.go:httpStart:http.Handle(/, server)"] ∧
+    nilServes = [] ∧ sideImports = [] ∧ serverLits = [] ∧
+    unconditionalRouterCalls = ["commonroutes.RegisterCommonRoutes", "httpStart"] ∧
+    modeGuards = [("writer.Init", ["all", "writer", ""]), ("reader.Init", ["all", "reader", ""]), ("view.Init", ["all", "reader", ""])] ∧
+    Qryn.Gen.Routes.routes.all (fun r => (initOf r.src).isSome || r.src == "shared/commonroutes.RegisterCommonRoutes") = true := by
+  decide +kernel
+
+/-- `production_router_guarded` for ANY list of route specs (any subset / any mode's table) -/
+theorem spec_table_guarded (specs : List RouteSpec) (login pass : Bytes) (rest : List Middleware) (hs : Nat → Handler)
+    (clean : Bytes → Bool) (req : Req) (h : authDecision login pass req.auth ≠ .pass) (hc : clean req.path = true)
+    (i : Nat) (spec : RouteSpec) (hi : specs[i]? = some spec)
+    (hp : matchParts spec.pathPrefix spec.parts req.path = true) (hm : req.method ∈ spec.methods) :
+    let R : Router := ⟨tableOf specs hs, authMw login pass :: rest, clean⟩
+    (serve R req).effects = [] ∧ ((serve R req).status = 401 ∨ (serve R req).status = 400) := by
+  intro R
+  have hmem : spec.toRoute (hs i) ∈ tableOf specs hs := by
+    simp only [tableOf, List.mem_map]
+    refine ⟨(spec, i), ?_, rfl⟩
+    rw [List.mem_iff_getElem?]
+    exact ⟨i, by simp [List.getElem?_zipIdx, hi]⟩
+  have hacc : (spec.toRoute (hs i)).accepts req := ⟨hp, .inr hm⟩
+  have := no_handler_without_creds login pass rest (tableOf specs hs) clean req h
+  exact ⟨this.1, (this.2 hc ⟨_, hmem, hacc⟩).2.1⟩
+
+/-- **configured_any_mode.** For EVERY value of MODE (all, writer, reader, the empty string, anything else), every
+    configuration in which a login and a password were supplied by some source, every route that `main()` registers
+    in that mode (per the regenerated guards) and every registered method: a request that does not carry the
+    effective credentials is answered 401/400 and nothing runs. -/
+theorem configured_any_mode (mode : String) (env : Env) (file : Creds)
+    (hu : supplied .user env file) (hp : supplied .pass env file)
+    (rest : List Middleware) (hs : Nat → Handler) (clean : Bytes → Bool) (req : Req)
+    (h : authDecision (effective env file).user (effective env file).pass req.auth ≠ .pass) (hc : clean req.path = true)
+    (i : Nat) (spec : RouteSpec)
+    (hi : (routesIn Qryn.Gen.Exposure.modeGuards mode Qryn.Gen.Routes.routes)[i]? = some spec)
+    (hpm : matchParts spec.pathPrefix spec.parts req.path = true) (hm : req.method ∈ spec.methods) :
+    let R : Router := ⟨tableOf (routesIn Qryn.Gen.Exposure.modeGuards mode Qryn.Gen.Routes.routes) hs,
+                       mainChain (installedCreds env file) rest, clean⟩
+    (serve R req).effects = [] ∧ ((serve R req).status = 401 ∨ (serve R req).status = 400) := by
+  intro R
+  have hR : R = ⟨tableOf (routesIn Qryn.Gen.Exposure.modeGuards mode Qryn.Gen.Routes.routes) hs,
+      authMw (effective env file).user (effective env file).pass :: rest, clean⟩ := by
+    simp only [R, (both_supplied_installed env file hu hp).1, mainChain]
+  rw [hR]
+  exact spec_table_guarded _ _ _ rest hs clean req h hc i spec hi hpm hm
+
+end config
+
 /-! ## non-vacuity -/
 
 section examples
@@ -282,6 +579,47 @@ example : ∃ spec, Qryn.Gen.Routes.routes[0]? = some spec ∧ matchParts spec.p
     "GET" ∈ spec.methods := ⟨_, rfl, by decide, by decide⟩
 -- strict ≠ lenient: `QR==` decodes like `QQ==` under StdEncoding but is not canonical
 example : B64.decodeOk [81, 82, 61, 61] = some [65] ∧ B64.decode true [81, 82, 61, 61] = ([], true) := by decide
+
+-- configuration path, mixed sources. `fu`/`fp` from the file, `qu`/`qp` from QRYN_*, `cp` from CLOKI_PASSWORD
+section cfgExamples
+open Qryn.Http.AuthConfig
+def fu : Bytes := [102, 117]
+def fp : Bytes := [102, 112]
+def qu : Bytes := [113, 117]
+def qp : Bytes := [113, 112]
+def cp : Bytes := [99, 112]
+/-- file username + QRYN_PASSWORD -/
+def envA : Env := Env.ofList [("QRYN_PASSWORD", some qp)]
+/-- QRYN_LOGIN + CLOKI_PASSWORD, QRYN_PASSWORD set but empty -/
+def envB : Env := Env.ofList [("QRYN_LOGIN", some qu), ("CLOKI_PASSWORD", some cp), ("QRYN_PASSWORD", some [])]
+example : installedCreds envA ⟨fu, []⟩ = some (fu, qp) := by decide
+example : installedCreds envB ⟨[], []⟩ = some (qu, cp) := by decide
+-- CLOKI_* wins over QRYN_* wins over the file
+example : installedCreds (Env.ofList [("QRYN_LOGIN", some qu), ("CLOKI_LOGIN", some fu)]) ⟨qp, fp⟩ = some (fu, fp) := by decide
+-- only a login anywhere: not installed; nothing anywhere: not installed; empty-but-set does not count
+example : installedCreds (Env.ofList [("QRYN_LOGIN", some qu)]) ⟨[], []⟩ = none := by decide
+example : installedCreds (Env.ofList [("QRYN_LOGIN", some qu), ("QRYN_PASSWORD", some [])]) ⟨[], []⟩ = none := by decide
+-- the hypotheses of `configured_end_to_end` are satisfiable with mixed sources
+example : supplied .user envA ⟨fu, []⟩ ∧ supplied .pass envA ⟨fu, []⟩ :=
+  ⟨.inl (by decide), .inr ⟨"QRYN_PASSWORD", by decide, by decide⟩⟩
+example : supplied .user envB ⟨[], []⟩ ∧ supplied .pass envB ⟨[], []⟩ :=
+  ⟨.inr ⟨"QRYN_LOGIN", by decide, by decide⟩, .inr ⟨"CLOKI_PASSWORD", by decide, by decide⟩⟩
+-- end to end on the extracted table: file username + QRYN_PASSWORD → /ready without credentials 401, nothing ran;
+-- with fu:qp (ZnU6cXA=) the handler runs; with the FILE's would-be pair fu:fp (ZnU6ZnA=) 401
+def R1 : Router :=
+  ⟨tableOf Qryn.Gen.Routes.routes hOK, mainChain (installedCreds envA ⟨fu, []⟩) [gzipMw id [], loggingMw], fun _ => true⟩
+example : ((serve R1 (rq "GET" ready none)).status, (serve R1 (rq "GET" ready none)).effects) = (401, []) := by decide
+example : (serve R1 (rq "GET" ready (some (basicWord ++ sp :: [90, 110, 85, 54, 99, 88, 65, 61])))).effects =
+    [.handler 0, .backend 0] := by decide
+example : (serve R1 (rq "GET" ready (some (basicWord ++ sp :: [90, 110, 85, 54, 90, 110, 65, 61])))).status = 401 := by decide
+-- modes: MODE=reader has no ingest route, MODE=writer no query route, an unknown mode only the common routes
+example : ((routesIn Qryn.Gen.Exposure.modeGuards "reader" Qryn.Gen.Routes.routes).any (·.tpl == "/loki/api/v1/push"),
+           (routesIn Qryn.Gen.Exposure.modeGuards "writer" Qryn.Gen.Routes.routes).any (·.tpl == "/loki/api/v1/push"),
+           (routesIn Qryn.Gen.Exposure.modeGuards "writer" Qryn.Gen.Routes.routes).any (·.tpl == "/loki/api/v1/labels"),
+           (routesIn Qryn.Gen.Exposure.modeGuards "gateway" Qryn.Gen.Routes.routes).map (·.tpl),
+           routesIn Qryn.Gen.Exposure.modeGuards "all" Qryn.Gen.Routes.routes == Qryn.Gen.Routes.routes) =
+    (false, true, false, ["/ready", "/config", "/metrics", "/api/status/buildinfo"], true) := by decide +kernel
+end cfgExamples
 end examples
 
 end Qryn.C20
